@@ -586,3 +586,27 @@ def worker_tuples(fn: ast.AST, name: str = "args") -> List[ast.Tuple]:
             elif isinstance(v, ast.List):
                 out += [e for e in v.elts if isinstance(e, ast.Tuple)]
     return out
+
+
+def inline_projections(model, fi, expr: ast.AST, depth: int = 3) -> ast.AST:
+    """proj(<call of a pure-return helper returning a tuple>, i) → the i-th component, with the helper's locals expanded and
+    its parameters replaced by the call's arguments (so that values computed inside an extracted helper keep their
+    provenance)."""
+    for _ in range(depth):
+        changed = False
+
+        class T(ast.NodeTransformer):
+            def visit_Call(self, n):
+                nonlocal changed
+                n = self.generic_visit(n)
+                if isinstance(n.func, ast.Name) and n.func.id == "proj" and len(n.args) == 2 and isinstance(n.args[0], ast.Call) and isinstance(n.args[1], ast.Constant):
+                    inner = inline_call(model, fi, n.args[0])
+                    if isinstance(inner, ast.Tuple) and isinstance(n.args[1].value, int) and n.args[1].value < len(inner.elts):
+                        changed = True
+                        return inner.elts[n.args[1].value]
+                return n
+        expr = T().visit(ast.parse(ast.unparse(ast.fix_missing_locations(expr)), mode="eval").body)
+        ast.fix_missing_locations(expr)
+        if not changed:
+            break
+    return expr
